@@ -48,7 +48,7 @@ def _merge_hist(outs):
     return m
 
 
-def hist_family(prop, tier, runs, crash_phases, crash_note, conform, assumptions_extra, per_child=256):
+def hist_family(prop, tier, runs, crash_phases, crash_note, conform, assumptions_extra, per_child=256, extra=None):
     """Shared body of C02/C03/C12/C17: explore all install histories up to a depth.
 
     runs: list of (flags, depth, small) explored one after the other; conform: (flags, depth, small)
@@ -132,6 +132,14 @@ def hist_family(prop, tier, runs, crash_phases, crash_note, conform, assumptions
     if mismatches and not viols:
         raise MachineryError(f"conformance: {len(mismatches)} histories observed differently on the mounted and the unmodified crate, e.g. {mismatches[0]}")
     cov["conformance_mismatches"] = len(mismatches)
+    if extra:
+        ev, ecov = extra(tier, mi)
+        viols += ev
+        for k, v in ecov.items():
+            if k in ("states", "transitions") and isinstance(v, int):
+                cov[k] = cov.get(k, 0) + v
+            else:
+                cov[k] = v
     return finish(prop, tier, t0, cov, viols, COMMON_ASSUMPTIONS + assumptions_extra, mi)
 
 
@@ -152,9 +160,26 @@ def check_c03(tier):
                                           "arena functions are packed at 16-byte pitch around the targets; a thunk target and an 8-byte-pitch pair are included"])
 
 
+def c12_cycles(tier, mi):
+    """Long run of mixed cycles on the mounted and on the unmodified crate; /proc/self/maps before/after."""
+    n = 20000 if tier == "quick" else 100000
+    viols = []
+    steps = 0
+    for b in ("e3", "e3real"):
+        r = subprocess.run([bin_path(b), "cycles", "--n", str(n)], capture_output=True, text=True, cwd=WORK, env=env_offline(), timeout=3000)
+        if r.returncode != 0:
+            raise MachineryError(f"{b} cycles exited {r.returncode}: {r.stderr[-500:]}")
+        o = json.loads(r.stdout.strip().splitlines()[-1])
+        steps += o["steps"]
+        for v in o["violations"]:
+            if v["prop"] == "C12":
+                viols.append({"key": v["key"], "what": v["what"] + f" ({'mounted' if b == 'e3' else 'unmodified'} crate)", "engine": "e3", "args": ["cycles", "--n", str(n)], "case": {"history": v["history"], "cycles": n}})
+    return viols, {"transitions": steps, "cycles": n, "cycle_runs": "mounted and unmodified crate; executable anonymous mappings compared through /proc/self/maps before the first and after the last cycle, rwx page count sampled during lifetimes"}
+
+
 def check_c12h(tier):
     runs = [(["--fs"], 4, False)] if tier == "quick" else [(["--fs"], 5, False)]
-    return hist_family("C12", tier, runs, crash_phases=(),
+    return hist_family("C12", tier, runs, extra=c12_cycles, crash_phases=(),
                        crash_note="Process deaths are left to C01/C02 (counted as undecided here).",
                        conform=(["--fs"], 3, False),
                        assumptions_extra=["trampoline mappings are tracked at the mmap/munmap interface of the crate (vlibc), which is its only way to map memory on Linux"])
@@ -619,6 +644,16 @@ def check_c09(tier):
     t0 = time.time()
     mi = mount()
     viols, cov = e4.c09(tier, mi)
+    # "raised before anything is modified": observed inside the injector's scope by the E3 refusal histories
+    build(["e3m"])
+    outs = run_engine_sharded(bin_path("e3"), ["hist", "--depth", "3" if tier == "quick" else "4", "--fs", "--small", "--refusals"], NCPU, timeout=1500)
+    m = _merge_hist(outs)
+    for v in m["violations"]:
+        if v["prop"] == "C09":
+            viols.append({"key": v["key"], "what": v["what"], "engine": "e3", "args": ["hist", "--fs", "--refusals"], "case": {"history": v["history"], "step": v["step"] & 0xFFF}})
+    cov["states"] += m["prefixes"]
+    cov["transitions"] += m["steps"]
+    cov["refusal_histories"] = m["histories"]
     return finish("C09", tier, t0, cov, viols, COMMON_ASSUMPTIONS[2:] + [
         "the generated programs are compiled against the unmodified crate; two fn-pointer types are 'written identically' when their type texts are equal after whitespace normalisation (one designated pair spells the unit return two ways)",
         "pairs that differ only in lifetime spelling are executed but not judged"], mi)
